@@ -174,7 +174,11 @@ def _worker_init(modname):
 
 def _worker_run(item):
     try:
-        return _MOD.run_shard(item)
+        r = _MOD.run_shard(item)
+        for sig, v in list(r.violations.items()):
+            if isinstance(v[1], dict) and '__shard__' not in v[1]:
+                v[1]['__shard__'] = jsonable(item)
+        return r
     except Exception:
         r = ShardResult()
         r.violations['HARNESS-ERROR'] = (
@@ -189,7 +193,9 @@ def run_property(pid, mod, tier, seed):
     nproc = min(NPROC, max(1, len(items)))
     if nproc > 1:
         ctx = multiprocessing.get_context('fork')
-        with ctx.Pool(nproc, initializer=_worker_init, initargs=(mod.__name__,)) as pool:
+        # one fresh process per shard: a shard's case sequence is the whole history its process has seen, so a
+        # violation that depends on state leaking between calls replays exactly (check.py --replay F --shard)
+        with ctx.Pool(nproc, initializer=_worker_init, initargs=(mod.__name__,), maxtasksperchild=1) as pool:
             for r in pool.imap_unordered(_worker_run, items, chunksize=1):
                 total.merge(r)
     else:
@@ -270,19 +276,33 @@ def confirm_replay(pid, path, sig):
     """Re-execute the case in a fresh process; the same signature must come back."""
     if os.environ.get('VERIF_NO_CONFIRM'):
         return None
-    try:
-        p = subprocess.run([sys.executable, os.path.join(VERIF_DIR, 'check.py'), pid, '--replay', path],
-                           capture_output=True, text=True, timeout=600)
-    except Exception:
-        return False
-    return ('REPLAY-SIGNATURE ' + sig) in p.stdout
+    for extra in ([], ['--shard']):
+        try:
+            p = subprocess.run([sys.executable, os.path.join(VERIF_DIR, 'check.py'), pid, '--replay', path] + extra,
+                               capture_output=True, text=True, timeout=1800)
+        except Exception:
+            return False
+        if ('REPLAY-SIGNATURE ' + sig) in p.stdout:
+            return True
+    return False
 
 
-def do_replay(pid, mod, path):
+def do_replay(pid, mod, path, shard_mode=False):
     with open(path) as fh:
         doc = json.load(fh)
     case = unjson(doc['case'])
-    res = mod.replay(case)
+    shard = case.pop('__shard__', None) if isinstance(case, dict) else None
+    if shard_mode and shard is not None:
+        # history-dependent violation (state leaking between calls in the implementation): re-execute the whole
+        # case sequence of the shard in this fresh process
+        r = mod.run_shard(_tuplify(shard))
+        res = [(s_, v[0] + '  [reproduces within the case sequence of shard %r]' % (shard,))
+               for s_, v in r.violations.items() if s_ == doc['signature']]
+    else:
+        res = mod.replay(case)
+        if doc['signature'] not in [s_ for s_, _ in res] and shard is not None and not shard_mode:
+            print('single-case replay did not reproduce %s; try: check.py %s --replay %s --shard' % (
+                doc['signature'], pid, path))
     found = False
     for sig, desc in res:
         print('REPLAY-SIGNATURE ' + sig)
@@ -299,6 +319,12 @@ def do_replay(pid, mod, path):
         return 0
     print('VIOLATION property=%s replay=%s' % (pid, path))
     return 1
+
+
+def _tuplify(x):
+    if isinstance(x, list):
+        return tuple(_tuplify(v) for v in x)
+    return x
 
 
 def write_evidence(pid, mod, tier, seed, total, wall, nshards, n_viol, n_known):
